@@ -211,7 +211,7 @@ package eval
 //@   ensures* finalized.only.if.valid: phase == 4 ==> !valFailed
 //@   ensures* all.registered.executed: result == nil ==> forall i int :: 0 <= i && i < len(Context.roots) ==> select(dslDone, Context.roots[i])
 //@   loop 1 invariant outer: allocated(roots) && Context.roots.arr != roots.arr && 0 <= executed && executed <= len(roots) && phase <= 1 && Context != nil && len(roots) > 0 && fresh(roots) && (forall j int :: 0 <= j && j < executed ==> select(dslDone, roots[j])) && 0 <= n0 && (forall i int :: 0 <= i && i < n0 ==> (exists p int :: 0 <= p && p < len(roots) && roots[p] == old(Context.roots[i]))) && rootsOwn && allocated(Context) && !valFailed
-//@   loop 2 invariant inner: allocated(roots) && Context.roots.arr != roots.arr && 0 - 1 <= rangeidx(2) && 0 <= start && start <= len(roots) && executed == len(roots) && phase <= 1 && Context != nil && fresh(roots) && (forall j int :: 0 <= j && j < start + rangeidx(2) + 1 ==> select(dslDone, roots[j])) && 0 <= n0 && (forall i int :: 0 <= i && i < n0 ==> (exists p int :: 0 <= p && p < len(roots) && roots[p] == old(Context.roots[i]))) && rootsOwn && allocated(Context) && !valFailed
+//@   loop 2 invariant inner: allocated(roots) && Context.roots.arr != roots.arr && 0 - 1 <= rangeidx(2) && 0 <= start && start <= len(roots) && executed == len(roots) && phase <= 1 && Context != nil && fresh(roots) && (forall j int :: 0 <= j && j < (ranged(2).off - roots.off) + rangeidx(2) + 1 ==> select(dslDone, roots[j])) && 0 <= n0 && (forall i int :: 0 <= i && i < n0 ==> (exists p int :: 0 <= p && p < len(roots) && roots[p] == old(Context.roots[i]))) && rootsOwn && allocated(Context) && !valFailed
 //@   loop 3 invariant prepare: allocated(roots) && Context.roots.arr != roots.arr && 0 - 1 <= rangeidx(3) && phase <= 2 && Context != nil && fresh(roots) && (phase < 2 ==> Context.Errors == nil) && (forall j int :: 0 <= j && j < len(roots) ==> select(dslDone, roots[j])) && (forall j int :: 0 <= j && j <= rangeidx(3) ==> select(prepDone, roots[j])) && 0 <= n0 && (forall i int :: 0 <= i && i < n0 ==> (exists p int :: 0 <= p && p < len(roots) && roots[p] == old(Context.roots[i]))) && rootsOwn && allocated(Context) && !valFailed
 //@   loop 4 invariant validate: allocated(roots) && Context.roots.arr != roots.arr && 0 - 1 <= rangeidx(4) && phase <= 3 && Context != nil && fresh(roots) && (forall j int :: 0 <= j && j < len(roots) ==> select(dslDone, roots[j])) && (forall j int :: 0 <= j && j < len(roots) ==> select(prepDone, roots[j])) && (forall j int :: 0 <= j && j <= rangeidx(4) ==> select(valDone, roots[j])) && 0 <= n0 && (forall i int :: 0 <= i && i < n0 ==> (exists p int :: 0 <= p && p < len(roots) && roots[p] == old(Context.roots[i]))) && rootsOwn && allocated(Context) && (valFailed ==> Context.Errors != nil)
 //@   loop 5 invariant finalize: allocated(roots) && Context.roots.arr != roots.arr && 0 - 1 <= rangeidx(5) && Context != nil && fresh(roots) && (phase < 4 ==> Context.Errors == nil) && (forall j int :: 0 <= j && j < len(roots) ==> select(dslDone, roots[j])) && (forall j int :: 0 <= j && j < len(roots) ==> select(prepDone, roots[j])) && (forall j int :: 0 <= j && j < len(roots) ==> select(valDone, roots[j])) && (forall j int :: 0 <= j && j <= rangeidx(5) ==> select(finDone, roots[j])) && 0 <= n0 && (forall i int :: 0 <= i && i < n0 ==> (exists p int :: 0 <= p && p < len(roots) && roots[p] == old(Context.roots[i]))) && rootsOwn && allocated(Context) && !valFailed && phase <= 4
